@@ -156,9 +156,8 @@ class Grid(BaseGrid):
         I = X.round().astype(int)
         J = Y.round().astype(int)
 
-        # Metric is conform for PolarStereographic
-        A = self.dx[J, I]
-        return A, A
+        # The grid spacing may differ between the two directions (pm != pn)
+        return self.dx[J, I], self.dy[J, I]
 
     def depth(self, X: np.ndarray, Y: np.ndarray) -> np.ndarray:
         """Return the depth of grid cells"""
